@@ -62,6 +62,8 @@ def bound_temps(bounds):
 def classify_T(T, rng):
     if rng is None:
         return 'no-range'
+    if rng[0] == 0:
+        rng = (1e-300, rng[1])
     lo, hi = rng
     if T < lo or T > hi:
         near = min(abs(T - lo) / lo, abs(T - hi) / hi) <= 1e-6 if math.isfinite(T) else False
@@ -86,6 +88,11 @@ def evaluate(obj, X, T):
 def judge(ctx, label, obj, specs, X, T, what):
     """apply the oracle to one evaluation; specs = constituent specs"""
     m = _pg()
+    if 0 <= T < 1e-3 and any(s['range'] and s['range'][0] == 0 for s in specs):
+        # H/RT and S/R at (or a hair above) absolute zero inside a range that starts at 0 K: division by T, log(0) -
+        # nothing the property can demand a finite number for
+        ctx.event('skip:T~0-inside-a-range-starting-at-0K')
+        return
     if not all(has_prop(s, X) for s in specs):
         ctx.event('skip:property-without-data')
         return
